@@ -1,0 +1,28 @@
+//! Verification hook (feature `verif`): called before every storage write.
+use std::cell::RefCell;
+
+thread_local! {
+    static CALLBACK: RefCell<Option<Box<dyn FnMut(&'static str)>>> = RefCell::new(None);
+}
+
+pub fn install(cb: Box<dyn FnMut(&'static str)>) {
+    CALLBACK.with(|c| *c.borrow_mut() = Some(cb));
+}
+
+pub fn clear() {
+    CALLBACK.with(|c| *c.borrow_mut() = None);
+}
+
+pub fn before_write(site: &'static str) {
+    // take the callback out while it runs so that a panicking callback leaves no borrow behind
+    let cb = CALLBACK.with(|c| c.borrow_mut().take());
+    if let Some(mut cb) = cb {
+        cb(site);
+        CALLBACK.with(|c| {
+            let mut slot = c.borrow_mut();
+            if slot.is_none() {
+                *slot = Some(cb);
+            }
+        });
+    }
+}
